@@ -10,8 +10,8 @@
 (*     found again before the next store).                                   *)
 EXTENDS Cache, TraceBase
 
-VARIABLE l
-tvars == <<vars, l>>
+VARIABLES l, shared      \* shared: process-shared back-end - memory is a limit in play too
+tvars == <<vars, l, shared>>
 
 Ev == TraceLog[l]
 Is(name) == l <= NLines /\ Ev.e = name /\ l' = l + 1
@@ -23,13 +23,14 @@ TReset ==
     /\ last' = [k \in Names |-> NoEntry]
     /\ dead' = [k \in Names |-> FALSE]
     /\ res' = [NoRes EXCEPT !.op = "reset"] /\ Keep
+    /\ shared' = (Ev.backend = "process")
 
 TStore ==
     /\ Is("Store")
     /\ last' = [last EXCEPT ![Ev.k] = [has |-> TRUE, v |-> Ev.v, ts |-> SeqToSet(Ev.ts) \cup {Ev.k}, dl |-> Ev.dl]]
     /\ dead' = [dead EXCEPT ![Ev.k] = FALSE]
     /\ res' = [NoRes EXCEPT !.op = "store", !.k = Ev.k]
-    /\ UNCHANGED <<now, limit>> /\ Keep
+    /\ UNCHANGED <<now, limit, shared>> /\ Keep
 
 Valid(k) == last[k].has /\ ~dead[k] /\ last[k].dl >= now
 
@@ -38,16 +39,16 @@ TFetchHit ==
     /\ Valid(Ev.k)
     /\ Ev.v = last[Ev.k].v /\ SeqToSet(Ev.ts) = last[Ev.k].ts /\ Ev.dl = last[Ev.k].dl /\ ~Ev.bad
     /\ res' = [op |-> "fetch", k |-> Ev.k, hit |-> TRUE, v |-> Ev.v, ts |-> SeqToSet(Ev.ts), dl |-> Ev.dl]
-    /\ UNCHANGED <<now, limit, last, dead>> /\ Keep
+    /\ UNCHANGED <<now, limit, last, dead, shared>> /\ Keep
 
 TFetchMiss ==
     /\ Is("Fetch") /\ ~Ev.hit
-    /\ (Valid(Ev.k) => limit > 0)
+    /\ (Valid(Ev.k) => (limit > 0 \/ shared))      \* a store the segment cannot hold is dropped: legal miss
     /\ dead' = IF Valid(Ev.k) THEN [dead EXCEPT ![Ev.k] = TRUE] ELSE dead
     /\ res' = [NoRes EXCEPT !.op = "fetch", !.k = Ev.k]
-    /\ UNCHANGED <<now, limit, last>> /\ Keep
+    /\ UNCHANGED <<now, limit, last, shared>> /\ Keep
 
-THist(a) == /\ dead' = a /\ UNCHANGED <<now, limit, last>> /\ Keep
+THist(a) == /\ dead' = a /\ UNCHANGED <<now, limit, last, shared>> /\ Keep
 
 TRise   == /\ Is("Rise")
            /\ THist([j \in Names |-> dead[j] \/ (last[j].has /\ Ev.t \in last[j].ts)])
@@ -60,9 +61,9 @@ TClear  == /\ Is("Clear")
            /\ res' = [NoRes EXCEPT !.op = "clear"]
 TTick   == /\ Is("Tick")
            /\ now' = now + Ev.d /\ res' = NoRes
-           /\ UNCHANGED <<limit, last, dead>> /\ Keep
+           /\ UNCHANGED <<limit, last, dead, shared>> /\ Keep
 
-TraceInit == Init /\ l = 1
+TraceInit == Init /\ l = 1 /\ shared = FALSE
 TraceNext == TReset \/ TStore \/ TFetchHit \/ TFetchMiss \/ TRise \/ TRemove \/ TClear \/ TTick
 TraceSpec == TraceInit /\ [][TraceNext]_tvars
 =============================================================================
